@@ -728,3 +728,60 @@ Proof.
   - intros Hb. destruct (rect_clip_shortcuts r path He Hr Hi) as [_ S]. destruct (S Hb) as [S1 _].
     rewrite S1 in E. inversion E; reflexivity.
 Qed.
+
+(* ====================================================================== several paths in one call *)
+Lemma untag_app_c a b : untag (a ++ b) = untag a ++ untag b.
+Proof. unfold untag. apply map_app. Qed.
+
+Lemma rect_clip_paths_t_app r ps : forall qs a b,
+  rect_clip_paths_t r ps = Ok a -> rect_clip_paths_t r qs = Ok b -> rect_clip_paths_t r (ps ++ qs) = Ok (a ++ b).
+Proof.
+  induction ps as [|p t IH]; intros qs a b Ha Hb; cbn [rect_clip_paths_t app] in *.
+  - inversion Ha; subst. exact Hb.
+  - destruct (rect_clip_t r p) as [o|] eqn:Eo; cbn [bind] in *; [|discriminate].
+    destruct (rect_clip_paths_t r t) as [o'|] eqn:Et; cbn [bind] in *; [|discriminate].
+    inversion Ha; subst. rewrite (IH qs o' b eq_refl Hb). cbn [bind]. rewrite app_assoc. reflexivity.
+Qed.
+
+Lemma rect_clip_paths_t_split r ps : forall qs c,
+  rect_clip_paths_t r (ps ++ qs) = Ok c ->
+  exists a b, rect_clip_paths_t r ps = Ok a /\ rect_clip_paths_t r qs = Ok b /\ c = a ++ b.
+Proof.
+  induction ps as [|p t IH]; intros qs c H; cbn [rect_clip_paths_t app] in *.
+  - exists [], c. repeat split; assumption.
+  - destruct (rect_clip_t r p) as [o|] eqn:Eo; cbn [bind] in *; [|discriminate].
+    destruct (rect_clip_paths_t r (t ++ qs)) as [o'|] eqn:Et; cbn [bind] in *; [|discriminate].
+    inversion H; subst. destruct (IH qs o' Et) as (a & b & Ea & Eb & ->).
+    exists (o ++ a), b. rewrite Ea. cbn [bind]. repeat split; [exact Eb|apply app_assoc].
+Qed.
+
+(* the call on ps ++ qs is the call on ps followed by the call on qs: no state survives a path *)
+Theorem rect_clip_paths_app r ps qs :
+  (forall a b, rect_clip_paths r ps = Ok a -> rect_clip_paths r qs = Ok b -> rect_clip_paths r (ps ++ qs) = Ok (a ++ b))
+  /\ (forall c, rect_clip_paths r (ps ++ qs) = Ok c ->
+        exists a b, rect_clip_paths r ps = Ok a /\ rect_clip_paths r qs = Ok b /\ c = a ++ b).
+Proof.
+  unfold rect_clip_paths. split.
+  - intros a b Ha Hb.
+    destruct (rect_clip_paths_t r ps) as [x|] eqn:Ex; cbn [bind] in Ha; [|discriminate].
+    destruct (rect_clip_paths_t r qs) as [y|] eqn:Ey; cbn [bind] in Hb; [|discriminate].
+    inversion Ha; inversion Hb; subst. rewrite (rect_clip_paths_t_app r ps qs x y Ex Ey). cbn [bind]. rewrite untag_app_c. reflexivity.
+  - intros c H. destruct (rect_clip_paths_t r (ps ++ qs)) as [z|] eqn:Ez; cbn [bind] in H; [|discriminate].
+    inversion H; subst. destruct (rect_clip_paths_t_split r ps qs z Ez) as (a & b & Ea & Eb & ->).
+    exists (untag a), (untag b). rewrite Ea, Eb. cbn [bind]. repeat split. apply untag_app_c.
+Qed.
+
+(* one path in the call = that path alone *)
+Theorem rect_clip_paths_single r p o : rect_clip_t r p = Ok o -> rect_clip_paths r [p] = Ok (rect_clip r p).
+Proof.
+  intros E. unfold rect_clip_paths, rect_clip. cbn [rect_clip_paths_t]. rewrite E. cbn [bind res_default]. rewrite app_nil_r. reflexivity.
+Qed.
+
+(* the arch that goes round the outside of the rectangle (three outside regions, no contact) followed by a crossing path:
+   the second result is what the crossing path gives alone *)
+Example rect_clip_paths_ex :
+  rect_clip_paths (mkRect 30 50 70 150) [[(0, 160); (0, 0); (100, 0); (100, 160); (90, 160); (90, 10); (10, 10); (10, 160)];
+                                        [(30, 200); (30, 100); (70, 100); (70, 200)]]
+  = Ok (rect_clip (mkRect 30 50 70 150) [(30, 200); (30, 100); (70, 100); (70, 200)])
+  /\ rect_clip (mkRect 30 50 70 150) [(0, 160); (0, 0); (100, 0); (100, 160); (90, 160); (90, 10); (10, 10); (10, 160)] = [].
+Proof. split; vm_compute; reflexivity. Qed.
